@@ -20,7 +20,7 @@ From stdpp Require Import pmap.
 From OV Require Import Base.Bytes Base.Cases Base.Tree Model.Hier Model.Heap Model.HeapReaders.
 Import ListNotations.
 
-Definition ae := (entry * option addr)%type.
+Notation ae := (entry * option addr)%type (only parsing).
 
 (* the addressed state: stack entries with their node pointers, r.target as instance and as
    address, the unprocessed units, the node tree as a zipper, and the number of zipper frames
